@@ -969,7 +969,9 @@ def mass_suspension(stats, mism, n=600):
     g = {"rules": [{"name": "word", "def": ["rep", 1, None, ["range", 97, 122]], "excl": None},
                    {"name": "pair", "def": ["cat", [["ref", "word"], ["opt", ["cat", [L("-"), ["ref", "pair"]]]]]], "excl": None}],
          "alpha": ["a", "b", "-"]}
-    reqs = [(0, "word", "abc", 0), (1, "pair", "ab-cd-e", 0), (2, "pair", "ab-cd", 0), (0, "pair", "a-b-c-d-e-f", 2)]
+    reqs = [(0, "word", "abc", 0), (1, "pair", "ab-cd-e", 0), (2, "pair", "ab-cd", 0), (0, "pair", "a-b-c-d-e-f", 2),
+            # ... and the very request the suspended listings are in the middle of (same rule, an EQUAL source, same offset)
+            (0, "word", "abc" + "def", 0), (2, "pair", "abcdef", 0), (0, "pair", "abcdef", 0), (0, "word", "abcdef", 3)]
     cls0, objs0 = pyimpl.build_grammar(g)
     want = [req_impl(objs0, *q) for q in reqs]
     want_list = pyimpl.run_lparse(objs0["word"], "abcdef", 0)
